@@ -554,6 +554,11 @@ def run(prog, rep, tier):
     from ..flow import check_reshape_order
     rep.rule('RESHAPE-C-order', 'blocks are reshaped in C order only (the order of the pipe strides)')
     check_reshape_order(prog, rep, ['tenpy/linalg/charges.py', 'tenpy/linalg/np_conserved.py'])
+    from .c01 import check_splice_order
+    rep.rule('SPLICE-descending', 'one-for-many splices of pipe legs at the loop variable run over '
+             'descending positions (shared with C01)')
+    if check_splice_order(prog, rep) < 3:
+        raise AnalysisError('SPLICE-descending: the splices of split_legs were not found')
     return rep.finish(
         level='other',
         explanation='Fusion rule, direction algebra (all sign cases), q_map column roles (%d '
